@@ -29,18 +29,28 @@ func verifModelWithRelation(typeName, rel string, u *openfgav1.Userset, restr []
 func VerifC02_Shapes() {
 	g := &verifTreeGen{budget: zzverif.Param("NODES", 5), width: zzverif.Param("WIDTH", 3)}
 	u := g.rewrite(zzverif.Param("DEPTH", 2))
-	restr := verifRestrictionMenu[zzverif.Choose("restrictions", len(verifRestrictionMenu))]
+	var restr []*openfgav1.RelationReference
+	if k := zzverif.Choose("restrictions", len(verifRestrictionMenu)+1); k < len(verifRestrictionMenu) {
+		restr = verifRestrictionMenu[k]
+	}
 	m := verifModelWithRelation("doc", "rel", u, restr, "")
 	verifFreezeModel("model", m)
 	out, err := TransformJSONProtoToDSL(m)
-	expr := verifExpressible(u)
+	// a direct assignment without type restrictions (a schema 1.0 relation) has no DSL form: '[]' is not accepted by the parser
+	bare := verifExpressible(u) && verifCountThis(u) == 1 && len(restr) == 0
+	expr := verifExpressible(u) && !bare
+	if bare {
+		zzverif.Class("succeeds-iff-expressible", "direct assignment without type restrictions")
+	}
 	zzverif.Assert((err == nil) == expr, "succeeds-iff-expressible")
 	assignable := verifCountThis(u) > 0
 	zzverif.Assert(utils.IsRelationAssignable(u) == assignable, "IsRelationAssignable-iff-direct-assignment")
 	if err != nil {
 		zzverif.Reach("rejected")
 		zzverif.Assert(out == "", "error-returns-no-text")
-		zzverif.Assert(err.Error() == pkgerrors.UnsupportedDSLNestingError("doc", "rel").Error(), "error-is-unsupported-nesting")
+		if !bare {
+			zzverif.Assert(err.Error() == pkgerrors.UnsupportedDSLNestingError("doc", "rel").Error(), "error-is-unsupported-nesting")
+		}
 		return
 	}
 	zzverif.Reach("accepted")
@@ -117,4 +127,61 @@ func VerifC02_Names() {
 		"\ncondition c1(m: map<timestamp>, s: string, x: int, y: list<string>) {\n  x < 10 && y.contains(s)\n}\n"
 	zzverif.Assert(out == want, "relations-sorted-by-name")
 	zzverif.Reach("printed")
+}
+
+// verifDSLScalar: the parameter types the DSL can write (CONDITION_PARAM_TYPE of the lexer grammar).
+var verifDSLScalar = map[openfgav1.ConditionParamTypeRef_TypeName]string{
+	openfgav1.ConditionParamTypeRef_TYPE_NAME_BOOL: "bool", openfgav1.ConditionParamTypeRef_TYPE_NAME_STRING: "string",
+	openfgav1.ConditionParamTypeRef_TYPE_NAME_INT: "int", openfgav1.ConditionParamTypeRef_TYPE_NAME_UINT: "uint",
+	openfgav1.ConditionParamTypeRef_TYPE_NAME_DOUBLE: "double", openfgav1.ConditionParamTypeRef_TYPE_NAME_DURATION: "duration",
+	openfgav1.ConditionParamTypeRef_TYPE_NAME_TIMESTAMP: "timestamp", openfgav1.ConditionParamTypeRef_TYPE_NAME_IPADDRESS: "ipaddress",
+}
+
+// VerifC02_ParamTypes: a condition parameter of EVERY type name of the API (also the
+// ones the DSL has no word for: unspecified, any, a number outside the enumeration),
+// containers with zero, one or two element types, element types that are containers
+// or carry element types themselves.  The conversion succeeds exactly when the DSL can
+// write the parameter (scalar word, or list/map of one scalar word), and then the
+// text is `name: type`; anything else is an error rather than text that the DSL
+// parser rejects or that reads back as another type.
+func VerifC02_ParamTypes() {
+	all := []openfgav1.ConditionParamTypeRef_TypeName{0, 1, 2, 3, 4, 5, 6, 7, 8, 9, 10, 11, 12}
+	tn := all[zzverif.Choose("type-name", len(all))]
+	p := &openfgav1.ConditionParamTypeRef{TypeName: tn}
+	ng := zzverif.Choose("element-types", 3)
+	for i := 0; i < ng; i++ {
+		g := &openfgav1.ConditionParamTypeRef{TypeName: all[zzverif.Choose("element-type-name", len(all))]}
+		if i == 0 && zzverif.Choose("element-has-element", 2) == 1 {
+			g.GenericTypes = []*openfgav1.ConditionParamTypeRef{{TypeName: openfgav1.ConditionParamTypeRef_TYPE_NAME_INT}}
+		}
+		p.GenericTypes = append(p.GenericTypes, g)
+	}
+	name := zzverif.Str("param", 1, 2, verifNameAlphabet)
+	m := &openfgav1.AuthorizationModel{SchemaVersion: "1.1", TypeDefinitions: []*openfgav1.TypeDefinition{{Type: "user"}},
+		Conditions: map[string]*openfgav1.Condition{"c": {Name: "c", Expression: "true", Parameters: map[string]*openfgav1.ConditionParamTypeRef{name: p}}}}
+	verifFreezeModel("model", m)
+	want := ""
+	isContainer := tn == openfgav1.ConditionParamTypeRef_TYPE_NAME_LIST || tn == openfgav1.ConditionParamTypeRef_TYPE_NAME_MAP
+	if w, ok := verifDSLScalar[tn]; ok && ng == 0 {
+		want = w
+	} else if isContainer && ng == 1 && len(p.GenericTypes[0].GenericTypes) == 0 {
+		if w, ok := verifDSLScalar[p.GenericTypes[0].GetTypeName()]; ok {
+			want = map[bool]string{true: "list", false: "map"}[tn == openfgav1.ConditionParamTypeRef_TYPE_NAME_LIST] + "<" + w + ">"
+		}
+	}
+	out, err := TransformJSONProtoToDSL(m)
+	cls := "parameter type the DSL has no word for"
+	if _, ok := verifDSLScalar[tn]; ok && ng > 0 {
+		cls = "scalar parameter with element types"
+	} else if isContainer {
+		cls = "container parameter whose element is not one scalar"
+	}
+	zzverif.Class("parameter-type-succeeds-iff-expressible", cls)
+	zzverif.Assert((err == nil) == (want != ""), "parameter-type-succeeds-iff-expressible")
+	if err == nil && want != "" {
+		zzverif.Assert(out == "model\n  schema 1.1\n\ntype user\n\ncondition c("+name+": "+want+") {\n  true\n}\n", "parameter-type-text")
+		zzverif.Reach("accepted")
+	} else if err != nil {
+		zzverif.Reach("rejected")
+	}
 }
